@@ -240,6 +240,10 @@ func (E *Engine) callFn(fr *Frame, st *State, fn *ssa.Function, args []Val, bind
 	if strings.HasPrefix(name, verifPkg) {
 		return E.intrinsic(fr, st, name[len(verifPkg):], fn, args, instr)
 	}
+	if name == "(*sync.Cond).Wait" {
+		E.condWait(fr, st, instr)
+		return nil
+	}
 	if v, ok := E.model(fr, st, name, fn, args, instr); ok {
 		return v
 	}
@@ -252,7 +256,7 @@ func (E *Engine) callFn(fr *Frame, st *State, fn *ssa.Function, args []Val, bind
 	if len(body.Blocks) == 0 {
 		return E.external(fr, st, fn, name, args, instr)
 	}
-	if h := E.P.contracts[org]; h != nil && !fr.spec && !(fr.proveTarget == org) {
+	if h := E.P.contracts[org]; h != nil && !fr.spec && !(fr.proveTarget == org) && !E.harness.InlineTargets[org] {
 		return E.useContract(fr, st, h, fn, args, instr)
 	}
 	if E.P.opaque[org] {
@@ -316,6 +320,51 @@ func (E *Engine) paramResolver(body *ssa.Function, args []Val) func(ssa.Value) (
 		}
 		return nil, false
 	}
+}
+
+// condWait models (*sync.Cond).Wait. In a nonblocking contract the path ends here. Otherwise it is a
+// yield point: the lock is released, so the monitor invariant must hold, everything may be changed
+// by other goroutines, and only the monitor invariant is known when the call returns.
+func (E *Engine) condWait(fr *Frame, st *State, instr ssa.Instruction) {
+	if fr.spec {
+		E.fail("Wait in specification")
+	}
+	if E.harness.NonBlocking {
+		E.note("nonblocking contract: executions that block in (*sync.Cond).Wait are outside this contract (covered by the monitor-invariant lemma)")
+		E.addFact(st, E.tb.False())
+		st.reach = E.tb.False()
+		return
+	}
+	inv := E.P.waitInv[originOf(fr.fn)]
+	if inv == nil {
+		E.fail("(*sync.Cond).Wait in %s without a //verif:monitor-invariant", fr.fn)
+	}
+	eval := func() *Term {
+		var args []Val
+		for _, p := range inv.Params {
+			var v Val
+			for _, q := range fr.fn.Params {
+				if q.Name() == p.Name() {
+					v = E.value(fr, q)
+				}
+			}
+			if v == nil {
+				E.fail("monitor invariant %s: no parameter %q in %s", inv, p.Name(), fr.fn)
+			}
+			args = append(args, v)
+		}
+		nf := E.newFrame(inv, fr, nil)
+		nf.spec = true
+		nf.ghost = true
+		sub := st.clone()
+		sub.reach = E.tb.True()
+		vals, _ := E.execFunc(nf, sub, args)
+		return vals[0].(*Term)
+	}
+	E.addObl(fr, st, "monitor", shortFn(fr.fn)+":invariant-before-wait", eval(), instr.Pos())
+	E.note("(*sync.Cond).Wait is a yield point: all memory is havocked and only the monitor invariant is re-assumed (no interleaving explored)")
+	E.havocAll(st)
+	E.addFact(st, eval())
 }
 
 // external: a function without a body in the loaded program.
@@ -498,7 +547,7 @@ func (E *Engine) intrinsic(fr *Frame, st *State, name string, fn *ssa.Function, 
 			E.addFact(st, c)
 		} else {
 			E.addFact(st, c)
-			E.requires = append(E.requires, tb.Implies(st.reach, c))
+			E.requires = append(E.requires, tb.Implies(E.absReach(st), c))
 		}
 		return nil
 	case "Assume":
@@ -556,6 +605,7 @@ func (E *Engine) intrinsic(fr *Frame, st *State, name string, fn *ssa.Function, 
 		sub.reach = tb.True()
 		vals, _ := E.execFunc(nf, sub, []Val{bv})
 		b := vals[0].(*Term)
+		bv, b = E.absolutize(bv, b)
 		// quantified integers are mathematical integers (the same reading wherever the formula is
 		// proved or assumed); slices and strings keep their shape invariant
 		guard := tb.True()
@@ -639,6 +689,55 @@ func (E *Engine) intrinsic(fr *Frame, st *State, name string, fn *ssa.Function, 
 	}
 	E.fail("unknown ghost function verif.%s", name)
 	return nil
+}
+
+// absolutize rewrites a quantifier over a slice index i, whose array reads are all of the form
+// A[T+i], into a quantifier over the absolute position k = T+i, so that the bound variable occurs
+// bare in array reads (the array property fragment, which the solvers decide).
+func (E *Engine) absolutize(bv *Term, body *Term) (*Term, *Term) {
+	if bv.sort != SInt {
+		return bv, body
+	}
+	tb := E.tb
+	count := map[*Term]int{}
+	bare := false
+	seen := map[*Term]bool{}
+	var walk func(t *Term)
+	walk = func(t *Term) {
+		if seen[t] || !t.bound {
+			return
+		}
+		seen[t] = true
+		if t.op == "select" {
+			idx := t.args[1]
+			if idx == bv {
+				bare = true
+			}
+			if idx.op == "+" && len(idx.args) == 2 {
+				if idx.args[1] == bv && !idx.args[0].bound {
+					count[idx.args[0]]++
+				} else if idx.args[0] == bv && !idx.args[1].bound {
+					count[idx.args[1]]++
+				}
+			}
+		}
+		for _, a := range t.args {
+			walk(a)
+		}
+	}
+	walk(body)
+	if bare || len(count) == 0 {
+		return bv, body
+	}
+	var T *Term
+	for t, n := range count {
+		if T == nil || n > count[T] || (n == count[T] && t.id < T.id) {
+			T = t
+		}
+	}
+	k := tb.BVar("k", SInt)
+	nb := tb.Subst(body, map[*Term]*Term{bv: tb.Arith("-", k, T)})
+	return k, nb
 }
 
 // oldState finds the state Old/Fresh refer to: the state before the call under contract, or, in a
